@@ -25,11 +25,6 @@ def make_case(seed):
     fmt = rng.choice(['plain', 'plainr']) if rng.random() < 0.15 else 'git'
     maxlen = rng.choice([40, 40, 40, 120, 400])
     d = gen.gen_diff(rng, fmt=fmt, maxlen=maxlen, simple_paths=rng.random() < 0.5)
-    if fmt in ('plain', 'plainr'):
-        for s in d.sections:
-            for h in s.hunks:
-                # the documented ambiguity of plain diff -u: '+++ ' content looks like a header
-                h.lines = [(k, t if not (k == '+' and t.startswith('++ ')) else 'pp' + t[2:]) for k, t in h.lines]
     opts, meta = gen.unified_options(rng)
     mll = meta['max_line_length']
     if mll and rng.random() < 0.6:
@@ -42,8 +37,29 @@ def make_case(seed):
                         want = mll + rng.choice([-3, -2, -1, 0, 1, 2, 5, 40, 400])
                         filler = rng.choice(['w0rd ', 'x', '日本 ', 'ab\u0301c ', 'é-'])
                         t = (t.replace('\t', ' ') + ' ' + filler * 600)[:max(1, want)]
-                    if fmt in ('plain', 'plainr') and k == '+' and t.startswith('++ '):
-                        t = 'pp' + t[2:]
+                    new.append((k, t))
+                h.lines = new
+    r2 = engine.item_rng(engine.stable_hash((seed, 'c01-extra')))
+    if r2.random() < 0.06:
+        # a removed first line that reads like the commit line of a submodule, without its '+' counterpart (a deleted
+        # submodule, or a file that happens to start so): an ordinary hunk line
+        for s in d.sections:
+            for h in s.hunks:
+                if h.lines and h.lines[0][0] == '-' and not (len(h.lines) > 1 and h.lines[1][0] == '+' and h.lines[1][1].startswith('Subproject commit ')):
+                    h.lines[0] = ('-', r2.choice(['Subproject commit ' + 'a1' * 20, 'Subproject commit notahash', 'Subproject commit ' + 'b' * 40 + '-dirty']))
+                    if 'subproject-like' not in meta['classes']:
+                        meta['classes'] = list(meta['classes']) + ['subproject-like']
+    if r2.random() < 0.06:
+        # bytes that are not valid UTF-8 (written '\udcXX' in the model, shown as U+FFFD), in lines below any length limit
+        for s in d.sections:
+            for h in s.hunks:
+                new = []
+                for k, t in h.lines:
+                    if k in '+- ' and r2.random() < 0.3 and (not mll or len(t.encode('utf-8')) + 8 < mll):
+                        cut = r2.randrange(len(t) + 1)
+                        t = t[:cut] + r2.choice(['\udcff', '\udc80', '\udcc3', '\udcff\udcfe']) + t[cut:]
+                        if 'invalid-utf8' not in meta['classes']:
+                            meta['classes'] = list(meta['classes']) + ['invalid-utf8']
                     new.append((k, t))
                 h.lines = new
     mode = 'pty' if rng.random() < 0.15 else 'pipe'
@@ -54,6 +70,8 @@ def make_case(seed):
 
 
 def expected_text(kind, text, meta):
+    if any('\udc80' <= ch <= '\udcff' for ch in text):
+        text = ''.join('\ufffd' if '\udc80' <= ch <= '\udcff' else ch for ch in text)    # invalid byte: shown as U+FFFD
     t = rows.expand_tabs(text, meta['tabs'])
     if meta['markers']:
         t = kind + t
@@ -82,7 +100,7 @@ def line_matches(info, kind, text, meta, counters):
     if not ok:
         # truncation beyond the maximum line length, with a visible mark
         mll = meta['max_line_length']
-        raw_len = len((kind + text).encode('utf-8'))
+        raw_len = len((kind + text).encode('utf-8', 'surrogateescape'))
         o2 = obs.rstrip(' ')
         if mll and raw_len > mll and o2.endswith('→') and len(o2) - 1 < len(exp):
             shown = o2[:-1]
@@ -195,7 +213,15 @@ def run_combined(seed):
     rng = engine.item_rng(seed)
     conflict = rng.random() < 0.5
     nparents = 2 if conflict else rng.choice([2, 2, 3])
-    lines, model, path = corpus.gen_combined(rng, conflict=conflict, nparents=nparents, nhunks=rng.choice([1, 1, 2, 3]))
+    nconf = rng.choice([1, 1, 2, 3])
+    lines, model, path = corpus.gen_combined(rng, conflict=conflict, nparents=nparents, nhunks=rng.choice([1, 1, 2, 3]), nconflicts=nconf, styles=('diff3', 'merge'),
+                                              lead=rng.choice([None, None, None, 0]) if conflict else None)
+    nsec = 1
+    while rng.random() < 0.3 and nsec < 3:
+        # a further file section (with its own conflict regions) in the same input
+        l2, m2, _p2 = corpus.gen_combined(rng, conflict=conflict, nparents=nparents, nhunks=rng.choice([1, 2]), nconflicts=rng.choice([1, 2]), styles=('diff3', 'merge'))
+        lines, model = lines + l2, model + m2
+        nsec += 1
     opts = gen.tagged_styles()
     opts['--paging'] = 'never'
     opts['--syntax-theme'] = rng.choice(['none', 'GitHub'])
@@ -204,7 +230,7 @@ def run_combined(seed):
     opts['--merge-conflict-theirs-diff-header-style'] = T['mc_theirs']
     opts['--merge-conflict-ours-diff-header-decoration-style'] = (T['mc_ours_dec'] + ' ' + rng.choice(['box', 'ul', ''])).strip()
     opts['--merge-conflict-theirs-diff-header-decoration-style'] = (T['mc_theirs_dec'] + ' ' + rng.choice(['box', 'ul', ''])).strip()
-    cls = ['combined', 'conflict' if conflict else 'no-conflict', 'parents%d' % nparents]
+    cls = ['combined', 'conflict' if conflict else 'no-conflict', 'parents%d' % nparents, 'sections%d' % nsec] + (['conflicts%d' % nconf] if conflict else [])
     tabs = 8
     if rng.random() < 0.4:
         opts['--line-numbers'] = True
@@ -238,7 +264,7 @@ def run_combined(seed):
             exp += [('-', t) for t in anc] + [('+', t) for t in ours]
             exp.append(('theirs-header', None))
             exp += [('-', t) for t in anc] + [('+', t) for t in theirs]
-    counters = {'rows': len(infos), 'lines_matched': 0, 'conflict_regions': 1 if conflict else 0}
+    counters = {'rows': len(infos), 'lines_matched': 0, 'conflict_regions': sum(1 for m in model if m[0] == 'conflict')}
     sets = {'option_classes': cls, 'section_kinds': ['combined'], 'mode': ['pipe'], 'format': ['combined']}
     seq = []
     seen_hunk = False
@@ -352,7 +378,7 @@ def run_item(item):
     if kind0 == 'real':
         return run_real(seed)
     d, opts, meta, mode, size = make_case(seed)
-    data = d.text().encode('utf-8')
+    data = d.text().encode('utf-8', 'surrogateescape')
     traced = seed % 8 == 0
     res = runner.run_delta(gen.to_args(opts), data, mode=mode, pty_size=size, trace=traced)
     c = crash_outcome(res, ID)
